@@ -108,7 +108,9 @@ func (m *Machine) intercept(fn *ssa.Function, args []Val, caller *frame, site ss
 	case "(*sync.RWMutex).Lock", "(*sync.RWMutex).Unlock", "(*sync.RWMutex).RLock", "(*sync.RWMutex).RUnlock",
 		"(*sync.Mutex).Lock", "(*sync.Mutex).Unlock":
 		return func() Val {
-			m.res.Notes["lock:"+name] = "called"
+			if m.res != nil {
+				m.res.Notes["lock:"+name] = "called"
+			}
 			return nil
 		}
 	case "(*sync.Map).Load", "(*sync.Map).Store", "(*sync.Map).LoadOrStore", "(*sync.Map).Delete", "(*sync.Map).LoadAndDelete", "(*sync.Map).Range", "(*sync.Map).Swap", "(*sync.Map).CompareAndSwap":
